@@ -42,6 +42,8 @@ Record emeta := EMeta {
 }.
 Definition meta_of (m : emeta) : meta := Meta (e_level m) (e_target m) (e_name m) (e_span m).
 
+(** [th_id]: the text the formatter prints for the ThreadId — [{:0>2?}] for Full / Compact (the padding reaches the
+    number inside: [ThreadId(02)]), [{:?}] for Pretty; the harness reports both. *)
 Record thr := Thr { th_name : bytes; th_id : bytes }.
 
 (** A span in scope: its name and its field groups — the fields given at creation, then one group per
